@@ -16,6 +16,10 @@ import (
 type C09Case struct {
 	Sc   Scenario `json:"scenario"`
 	Step string   `json:"terminal_step"` // A: adjust + apportion, B: full preparation + reproduction, C: plain NextEpoch
+	// Retry: the turnover under check is first attempted under a context that ends after a few polls (survival threshold 1,
+	// so that nobody is removed by the failed attempt); the organisms are then evaluated again - to other values, as a noisy
+	// evaluator gives - and the terminal step judges the repeated turnover by those values
+	Retry bool `json:"cancelled_attempt_then_new_evaluation,omitempty"`
 }
 
 func GenC09() *rapid.Generator[C09Case] {
@@ -31,6 +35,19 @@ func GenC09() *rapid.Generator[C09Case] {
 			c.Sc.Fit = FitnessProg{Kind: "dominant", Scale: rapid.SampledFrom([]float64{1e304, 5e304, 1e305}).Draw(t, "huge scale"), Salt: c.Sc.Fit.Salt}
 			c.Sc.Opts.AgeSignificance = 1 // see the known finding on fitness times age significance
 			c.Sc.Switch = nil
+		}
+		if c.Sc.Fit.Scale < 1e300 && rapid.IntRange(0, 11).Draw(t, "denormal fitness") == 0 {
+			// fitness values at the bottom of the float64 range: the population mean of the shared fitness is a denormal
+			// number (a few units of 5e-324) or underflows
+			c.Sc.Fit.Scale = rapid.SampledFrom([]float64{1e-300, 1e-308, 1e-310, 1e-320, 1e-322, 5e-324}).Draw(t, "denormal fitness scale")
+			c.Sc.Switch = nil
+		}
+		if rapid.IntRange(0, 5).Draw(t, "cancelled attempt before the terminal step") == 0 {
+			c.Retry = true
+			c.Sc.Opts.SurvivalThresh = 1
+			if c.Sc.Switch != nil {
+				c.Sc.Switch.Opts.SurvivalThresh = 1
+			}
 		}
 		return c
 	})
@@ -92,6 +109,23 @@ func CheckC09(c C09Case, rec *Rec) error {
 		rec.Class("options object replaced during the history")
 	}
 	assign(gen)
+	if c.Retry {
+		n := len(pop.Organisms)
+		cctx := &countdownCtx{Context: ctx, closed: closedChan}
+		cctx.left.Store(int64(1 + sc.Seed%11))
+		if err := exec.NextEpoch(cctx, gen, pop); err == nil {
+			// the countdown did not run out: an ordinary turnover more
+			gen++
+			assign(gen)
+		} else {
+			if len(pop.Organisms) != n || checkPartition(pop, n) != nil {
+				rec.Class("history ended: population not complete after a cancelled turnover")
+				return nil
+			}
+			assign(gen + 1000) // evaluated again, other values
+			rec.Class("turnover repeated after a cancelled attempt and a new evaluation")
+		}
+	}
 	popSize := opts.PopSize
 	// snapshot of the generation that is about to be turned over
 	orgs := append([]*genetics.Organism(nil), pop.Organisms...)
@@ -208,13 +242,24 @@ func checkExpectedOffspring(orgs []*genetics.Organism, rec *Rec) error {
 	for _, o := range orgs {
 		sum += o.Fitness
 	}
+	scale := 1.0
+	if sum/float64(len(orgs)) < 0x1p-900 {
+		// the mean would keep only a few bits (or underflow): form the quotient from values scaled by a power of two, which
+		// is exact and changes no ratio
+		scale = 0x1p900
+		sum = 0
+		for _, o := range orgs {
+			sum += o.Fitness * scale
+		}
+		rec.Class("mean adjusted fitness below 2^-900 (quotients formed from scaled values)")
+	}
 	mean := sum / float64(len(orgs))
 	if mean == 0 {
 		rec.Class("mean adjusted fitness is zero")
 		return nil
 	}
 	for i, o := range orgs {
-		want := o.Fitness / mean
+		want := o.Fitness * scale / mean
 		if !approxEq(o.ExpectedOffspring, want, 1e-9) {
 			return fmt.Errorf("organism %d expects %v offspring; its adjusted fitness %v divided by the population mean %v is %v", i, o.ExpectedOffspring, o.Fitness, mean, want)
 		}
@@ -242,6 +287,11 @@ func checkSharedFitness(orgs []*genetics.Organism, pre map[*genetics.Organism]or
 			if o.Fitness != 0 {
 				return fmt.Errorf("organism %d had fitness 0 and has the adjusted fitness %v", i, o.Fitness)
 			}
+			continue
+		}
+		if math.Abs(o.Fitness) < 1e-300 {
+			// at the bottom of the range the adjusted value is a rounded multiple of 5e-324: the factor can not be read off it
+			rec.Class("adjusted fitness below 1e-300 (factor not read off)")
 			continue
 		}
 		c := o.Fitness * float64(sps[p.species].size) / p.raw
@@ -287,7 +337,9 @@ func checkParentSelection(species []*genetics.Species, pre map[*genetics.Organis
 		var parents, rest []float64
 		negative := false
 		for _, o := range all {
-			negative = negative || pre[o].raw < 0
+			// (values at the bottom of the range lose their order in the adjustment - several of them round to the same multiple of
+			// 5e-324 - and are judged by the adjusted values as well)
+			negative = negative || pre[o].raw < 0 || (pre[o].raw != 0 && pre[o].raw < 1e-290)
 		}
 		for _, o := range all {
 			isParent := !o.VerifToEliminate()
@@ -328,6 +380,23 @@ func checkParentSelection(species []*genetics.Species, pre map[*genetics.Organis
 func checkApportionment(pop *genetics.Population, orgs []*genetics.Organism, species []*genetics.Species, pre map[*genetics.Organism]orgPre, popSize int, rec *Rec) error {
 	if err := checkExpectedOffspring(orgs, rec); err != nil {
 		return err
+	}
+	adjustedTotal := 0.0
+	for _, o := range orgs {
+		adjustedTotal += o.Fitness * 0x1p900
+	}
+	if adjustedTotal == 0 {
+		// every adjusted value has underflown to zero: there is no mean to divide by and the statement defines no shares;
+		// what remains is that the quotas total the population size
+		rec.Class("every adjusted fitness is zero (only the total of the quotas is judged)")
+		total := 0
+		for _, sp := range species {
+			total += sp.ExpectedOffspring
+		}
+		if total != popSize {
+			return fmt.Errorf("the quotas total %d, population size is %d (every adjusted fitness is zero)", total, popSize)
+		}
+		return nil
 	}
 	sums := map[*genetics.Species]float64{}
 	for _, o := range orgs {
